@@ -267,7 +267,9 @@ fn placement_case(rng: &mut Rng, geo: &Geo, rt: &tokio::runtime::Runtime, sum: &
         ids.iter().zip(meta.iter()).filter_map(|(i, m)| m.map(|m| (i.clone(), m))).collect();
     let ow = OptimizationWeights { trust_weight: g.alpha, performance_weight: g.beta, capacity_weight: g.gamma, diversity_weight: 1.0 };
     let (rf_min, bft) = g.engine.unwrap_or((1, ByzantineTolerance::None));
-    let config = PlacementConfig { replication_factor: ReplicationFactor { min: rf_min, default: rf_min.max(8), max: 255 },
+    // the configured maximum is sometimes BELOW the requested factor: the strategy must still return exactly k nodes or an error
+    let rf_max: u8 = match rng.below(4) { 0 => 255, 1 => 16, 2 => (rf_min.max(5)), _ => (rf_min.max(3)) };
+    let config = PlacementConfig { replication_factor: ReplicationFactor { min: rf_min, default: rf_min.max(8).min(rf_max), max: rf_max },
         placement_timeout: Duration::from_secs(60), byzantine_tolerance: bft, optimization_weights: ow };
     let trust = EigenTrustEngine::new(HashSet::new());
     let perf = PerformanceMonitor::new();
@@ -310,7 +312,7 @@ fn placement_case(rng: &mut Rng, geo: &Geo, rt: &tokio::runtime::Runtime, sum: &
     let ridx = |r: &NetworkRegion| REGIONS.iter().position(|x| x == r).unwrap();
     let detail = json!({"kind": if g.engine.is_some() { "engine" } else { "strategy" }, "n": n, "k": g.k, "fastrand_seed": seed.to_string(),
         "alpha": jf(g.alpha), "beta": jf(g.beta), "gamma": jf(g.gamma), "style": g.style, "missing_metadata": g.missing,
-        "rf_min": rf_min, "bft": format!("{:?}", bft), "iteration_order": order_ids,
+        "rf_min": rf_min, "rf_max": rf_max, "bft": format!("{:?}", bft), "iteration_order": order_ids,
         "nodes": meta.iter().map(|m| match m { Some(m) => json!([m.0.latitude, m.0.longitude, m.1, format!("{:?}", m.2)]), None => json!(null) }).collect::<Vec<_>>(),
         "observed": obs_tag(&obs), "selected": match &obs { Obs::Ok(v) => json!(v), _ => json!(null) }});
     // ---- direct checks of the property on the real answer
